@@ -88,7 +88,7 @@ pub fn fire(point: impl FnOnce() -> Point) {
     }
 }
 
-static CHANS: Mutex<Vec<(usize, usize)>> = Mutex::new(Vec::new());
+static CHANS: Mutex<std::collections::BTreeMap<usize, usize>> = Mutex::new(std::collections::BTreeMap::new());
 
 /// Gives the ring buffer at `addr` the next channel number. Rings are identified by address so
 /// that no field has to be added to `Sender`/`Receiver`; an address is reused only after both
@@ -96,17 +96,12 @@ static CHANS: Mutex<Vec<(usize, usize)>> = Mutex::new(Vec::new());
 pub(crate) fn register_chan(addr: usize) {
     let chan = NEXT_CHAN.fetch_add(1, Ordering::SeqCst);
     let mut chans = CHANS.lock().unwrap_or_else(|e| e.into_inner());
-    chans.retain(|(a, _)| *a != addr);
-    chans.push((addr, chan));
+    chans.insert(addr, chan);
 }
 
 pub(crate) fn chan_of(addr: usize) -> usize {
     let chans = CHANS.lock().unwrap_or_else(|e| e.into_inner());
-    chans
-        .iter()
-        .find(|(a, _)| *a == addr)
-        .map(|(_, c)| *c)
-        .unwrap_or(usize::MAX)
+    chans.get(&addr).copied().unwrap_or(usize::MAX)
 }
 
 pub(crate) fn push_point(addr: usize, via: &'static str, full: &dyn Fn() -> bool) {
